@@ -74,6 +74,8 @@ def gen_plan(S, index, tier):
     cfg = SP.swarm_cfg(S, maxlen=S.pick([4, 8, 25]), families=families)
     if S.coin(0.2):
         cfg['families'] = sorted(set(cfg['families']) | {'poisonvals'})
+    if S.coin(0.1):
+        cfg['families'] = sorted(set(cfg['families']) | {'bigint'})
     sp = SP.gen_pep(S, cfg)
     fault_free = S.coin(0.2)
     faults = [] if fault_free else [f for f in FAULT_KINDS if S.coin(0.6)]
@@ -1063,6 +1065,25 @@ def _roundtrip(run, ev_i, ev, x, m):
     if back != s:
         if run.violation('ROUNDTRIP', 'get_add', 'string', f"ROUNDTRIP: add_mods(strip_mods(x), get_mods(x)) = {back!r} "
                                                            f"but serialize(x) = {s!r}", ev_i):
+            return True
+    # (a') the same on the STRING form of the peptide (what a str argument is parsed into is the library's business;
+    # the round trip must give the string back)
+    if any(iv[0] == iv[1] for iv in (m.intervals or [])):
+        # the library's own string form of an empty interval does not re-parse in several positions (inside another
+        # interval, at the end): parser/serializer territory (C01, not claimed) - the string route is not judged then
+        out.probes['string_route_skipped_empty_interval'] += 1
+        back_s = s
+    else:
+        back_s = None
+    try:
+        if back_s is None:
+            back_s = pt.add_mods(pt.strip_mods(s), pt.get_mods(s))
+    except Exception as e:
+        return run.violation('ROUNDTRIP', 'get_add_str', 'raises', f"ROUNDTRIP: add_mods(strip_mods(s), get_mods(s)) on the "
+                                                                   f"string {s!r} raised {e!r}", ev_i)
+    if back_s != s:
+        if run.violation('ROUNDTRIP', 'get_add_str', 'string', f"ROUNDTRIP: on the string form, add_mods(strip_mods(s), "
+                                                               f"get_mods(s)) = {back_s!r} but s = {s!r}", ev_i):
             return True
     if stripped != m.seq:
         if run.violation('STRIP', 'strip_mods', 'seq', f"STRIP: strip_mods gave {stripped!r}, residues are {m.seq!r}",
